@@ -726,6 +726,20 @@ func (g *Gen) addUnmanaged(d *GConf) {
 		d.Intfs = append(d.Intfs, "mgmt")
 		d.ACLs = append(d.ACLs, &GACL{"mgmt_in", []string{"permit tcp object-group admin-hosts any4 eq 22", "deny ip any4 any4"}})
 		d.Binds = append(d.Binds, [3]string{"mgmt_in", "in", "mgmt"})
+		if g.Rng.Intn(2) == 0 {
+			d.ACLs = append(d.ACLs, &GACL{"mgmt_out", []string{"permit udp any4 host 192.168.7.5 eq 162", "deny ip any4 any4"}})
+			d.Binds = append(d.Binds, [3]string{"mgmt_out", "out", "mgmt"})
+		}
+		if g.Rng.Intn(2) == 0 {
+			// Hand-made VPN on the interface unknown to Netspoc.
+			d.ACLs = append(d.ACLs, &GACL{"mgmt_crypto", []string{"permit ip host 192.168.7.40 host 192.168.7.41"}})
+			d.Extra = append(d.Extra,
+				"crypto ipsec ikev1 transform-set mgmt_trans esp-aes-256 esp-sha-hmac",
+				"crypto map mgmt_map 10 match address mgmt_crypto",
+				"crypto map mgmt_map 10 set peer 192.0.2.77",
+				"crypto map mgmt_map 10 set ikev1 transform-set mgmt_trans",
+				"crypto map mgmt_map interface mgmt")
+		}
 		d.Extra = append(d.Extra,
 			"snmp-server host mgmt 192.168.7.5 community public",
 			"ntp server 192.168.7.6",
